@@ -1,5 +1,6 @@
 import Pamqp.Spec.Defs
 import Pamqp.Props.C10
+import Pamqp.Proofs.NoCorruptionProps
 /-!
 # C10 for message properties — whenever a content header with ANY property values encodes, it
 decodes back to those values (normalised; unset = None / '' ; Python == between bool and int)
@@ -19,6 +20,10 @@ theorem C10_props (cat : Cat) (hwf : Spec.flagsWF cat.props = true) (hcls : cat.
     ∃ (c n : Nat), ch.asInt? = some (c : Int) ∧ size.asInt? = some (n : Int) ∧
       Frame.unmarshal cat bs = .ok (bs.length, c, .header (.int cat.basicClassId) (.int 0) (.int n)
         ((cat.props.zip vals).map (fun p => expectedProp p.1 p.2))) := by
-  sorry
+  exact Proofs.NoCorruption.props_of_ok (Proofs.NoCorruption.DocClauses.mk (D := Documented) (DL := DocumentedL) (DE := DocumentedE)
+    (fun _ _ h => by simpa [Documented] using h) (fun _ h => by simpa [Documented] using h)
+    (fun _ h => by simpa [Documented] using h) (fun _ h => by simpa [Documented] using h)
+    (fun _ _ h => by simpa [DocumentedL] using h) (fun _ _ _ h => by simpa [DocumentedE] using h))
+    cat hwf hcls legacy vals hl cls weight size ch bs h hd
 
 end Pamqp.Props
